@@ -300,16 +300,20 @@ fn check_c13(cases: &[Case], results: &[Option<RunResult>]) -> Vec<Violation> {
                     empty_link
                 } {
                     Some("empty_link_with_markup")
-                } else if cases[b].slice == "indented_lists" && {
-                    // a list without any item: with white space inside it is still a block, without
-                    // it is nothing (emptiness is judged before the white space is dropped)
-                    let mut empty_list = false;
-                    walk(&doma, &mut |n, _| {
-                        if (n.is("ul") || n.is("ol") || n.is("dl")) && !n.kids().iter().any(|k| matches!(k, DNode::El { .. })) {
-                            empty_list = true;
-                        }
-                    });
-                    empty_list
+                } else if {
+                    // a list or other block container without any visible content: with white space
+                    // between its tags it is still a block (a line break, a blank line, a prefix that
+                    // may not fit), without it is nothing (emptiness is judged before the white space
+                    // is dropped)
+                    let mut empty_block = false;
+                    for r_ in [ra, rb] {
+                        walk(&dom_of(r_), &mut |n, _| {
+                            if (n.is("ul") || n.is("ol") || n.is("dl") || n.is("blockquote") || n.is("div") || n.is("p")) && visible_chars(std::slice::from_ref(n)).is_empty() && !has_element(std::slice::from_ref(n), &["img", "br", "hr", "table"]) {
+                                empty_block = true;
+                            }
+                        });
+                    }
+                    empty_block
                 } {
                     Some("empty_list_with_whitespace")
                 } else {
